@@ -1664,6 +1664,12 @@ def plan(mir, cfgfn, order_of, tier, curve_sel, Obligation, parts=("glue", "loop
             if not L:
                 raise NotAbstractable("no reversed main loop found")
         except (NotAbstractable, MirError, Unsupported) as e:
+            if "assertion failed" in str(e) and not isinstance(e, Unsupported):
+                # a bounds / overflow assertion of the MIR fails on the concrete all-zero-digits run
+                o.unknown("candidate: a panic is reached when all digits are zero: %s" % str(e)[:300])
+                o.candidate = True
+                o.models = []
+                continue
             o.unknown("not abstractable: %s" % str(e)[:300])
             o.not_abstractable = True
             continue
@@ -1699,6 +1705,12 @@ def work(mir, cfgfn, order_of, task, timeout_ms):
             return loop_chunk(mir, cfgfn(c), c, order_of(c), lo, hi, L)
     except NotAbstractable as e:
         return {"na": str(e)[:300]}
+    except MirError as e:
+        if "assertion failed" in str(e) and not isinstance(e, Unsupported) and kind in ("hglue", "hloop"):
+            return {"fails": ["a panic is reached on a concrete path: %s" % str(e)[:300]], "unknown": [], "secs": 0.0,
+                    "queries": 0, "paths": 0, "cols": [], "finals": 0, "init": None, "models": [], "fns": [],
+                    "cuts": 0, "panics": 1, "shapes": [], "ops": {}}
+        raise
     raise ValueError("unknown helper task %r" % (task,))
 
 
